@@ -82,4 +82,56 @@ theorem F2.length_eq {α β : Type} {R : α → β → Prop} {l : List α} {l' :
 theorem rowNames_perm {tips tips' : List String} (h : tips.Perm tips') (x : Entry) :
     (rowNames tips x).Perm (rowNames tips' x) := h.filter _
 
+/-! ## the sorted tip index only depends on the set of tips -/
+
+theorem mem_insertS {a x : String} : ∀ {l : List String}, x ∈ insertS a l ↔ x = a ∨ x ∈ l
+  | [] => by simp [insertS]
+  | b :: r => by
+    unfold insertS
+    split
+    · simp
+    · simp only [List.mem_cons, mem_insertS (l := r)]
+      constructor
+      · rintro (h | h | h)
+        · exact Or.inr (Or.inl h)
+        · exact Or.inl h
+        · exact Or.inr (Or.inr h)
+      · rintro (h | h | h)
+        · exact Or.inr (Or.inl h)
+        · exact Or.inl h
+        · exact Or.inr (Or.inr h)
+
+theorem insertS_sorted (a : String) : ∀ l : List String, l.Pairwise (· ≤ ·) → (insertS a l).Pairwise (· ≤ ·)
+  | [], _ => by simp [insertS]
+  | b :: r, h => by
+    rw [List.pairwise_cons] at h
+    unfold insertS
+    split
+    · rename_i hab
+      refine List.Pairwise.cons ?_ (List.Pairwise.cons h.1 h.2)
+      intro x hx
+      rcases List.mem_cons.1 hx with rfl | hx
+      · exact hab
+      · exact String.le_trans hab (h.1 x hx)
+    · rename_i hab
+      have hba : b ≤ a := by
+        rcases String.le_total a b with h' | h'
+        · exact absurd h' hab
+        · exact h'
+      refine List.Pairwise.cons ?_ (insertS_sorted a r h.2)
+      intro x hx
+      rcases mem_insertS.1 hx with rfl | hx
+      · exact hba
+      · exact h.1 x hx
+
+theorem sortN_sorted : ∀ l : List String, (sortN l).Pairwise (· ≤ ·)
+  | [] => List.Pairwise.nil
+  | a :: l => insertS_sorted a (sortN l) (sortN_sorted l)
+
+theorem sortN_eq_of_perm {a b : List String} (h : a.Perm b) : sortN a = sortN b := by
+  apply List.Perm.eq_of_pairwise (le := (· ≤ ·)) _ (sortN_sorted a) (sortN_sorted b)
+    ((sortN_perm a).trans (h.trans (sortN_perm b).symm))
+  intro x y _ _ h1 h2
+  exact String.le_antisymm h1 h2
+
 end Gotree.C09
